@@ -379,6 +379,14 @@ def execute(plan):
                     else:
                         rs = np.random.RandomState(op["seed"])
                         W = [rs.randn(n_, n_) + 1j * rs.randn(n_, n_) for n_ in m.Nr]
+                        # the dtype is a function of the seed, so that every place that emits this operation varies it:
+                        # real filters, or integer antenna-selection (permutation) matrices
+                        if op["seed"] % 5 == 1:
+                            W = [w.real.copy() for w in W]
+                            bump(res["probes"], "real_valued_post_filter")
+                        elif op["seed"] % 5 == 2:
+                            W = [np.eye(n_, dtype=int)[rs.permutation(n_)] for n_ in m.Nr]
+                            bump(res["probes"], "integer_post_filter")
                         Wa = np.zeros(len(W), dtype=np.ndarray)
                         for i, w in enumerate(W):
                             Wa[i] = w
